@@ -23,7 +23,8 @@ class Prop:
     rule = ("outer timelines (0-5 elements) selecting among 2-3 inner cold/hot/sync sources with overlapping lifetimes through "
             "switch_latest, switch_map, switch_map_indexed and flat_map_latest (errors in stale and current inners, outer completion "
             "before/after the latest inner); output and every source's subscription intervals are compared with an event-driven "
-            "reference: an inner element is forwarded only while its inner is the latest, the previous inner is unsubscribed when the "
+            "reference (the previous inner must also have been unsubscribed - or have terminated - before the next one is subscribed, in that "
+            "order within one instant); reference: an inner element is forwarded only while its inner is the latest, the previous inner is unsubscribed when the "
             "next arrives, completion only after the outer and the latest inner completed. Scenarios with a same-instant tie between two "
             "sources are only checked for the grammar. Distinct = (form, output); non-trivial = two notifications and two inner "
             "subscriptions.")
@@ -68,6 +69,16 @@ class Prop:
         w, rec, eng = r
         out.digest = (sc["form"], tuple(repr(e) for e in eng.out[:10]))
         nsubs = sum(len(w.sources[s].subs) for s in sc["inners"])
+        if sc.get("sub2_t") is None and not out.viol:
+            # "unsubscribe the previous inner as soon as a new inner arrives": when an inner is subscribed, the one before it has
+            # been let go (unsubscribed, or it had terminated) - in this order, also within one virtual instant
+            subs = sorted((x for s in set(sc["inners"]) for x in w.sources[s].subs), key=lambda x: x.sub_seq)
+            for p_, n_ in zip(subs, subs[1:]):
+                closed = (p_.disp_seq is not None and p_.disp_seq < n_.sub_seq) or (p_.term_seq is not None and p_.term_seq < n_.sub_seq)
+                if not closed:
+                    out.bad("previous-inner-still-subscribed", "%s: an inner sequence was subscribed at t=%s while the previous one (subscribed at t=%s) had not been unsubscribed yet" % (desc, n_.sub_t, p_.sub_t))
+                    break
+            out.probes["switch_order_checked"] += 1
         out.nontrivial = out.nontrivial and nsubs >= 2
         out.info = {"form": sc["form"], "output": [list(map(str, e)) for e in eng.out[:6]]}
         return out
